@@ -115,6 +115,17 @@ def run(ctx):
             for c1 in (1.2, -1.05, 3.0):
                 pm = [0.0] * d + [c1]
                 cases.append(mk_case(rng, pm, "infeasible", SETTINGS[0], rng.choice(["Wx", "Wz"]), Q.seed_vectors(rng, min(d, 12), 1)[0], None))
+        # nowhere-vanishing even targets (offset + small ripple) at tight tolerances with a small fault injected: an acceptance test
+        # with a hidden relative term (|r - e| <= tol + rtol |e|) lets these through
+        for d in ((2, 4, 6, 8) if quick else (2, 4, 6, 8, 10, 12, 16, 20)):
+            q = gen_poly(rng, d, "good")
+            sq = Q.sup_estimate(q) or 1.0
+            off = rng.choice([0.6, -0.6, 0.45])
+            pm = [x / sq * 0.25 for x in q]
+            pm[0] += off
+            for setting in ((1e-6, 1 - 1e-6, 1e-9), (1e-2, 0.9, 1e-8), (1e-5, 1 - 1e-5, 1e-10)):
+                for mult in (300, 1000):
+                    cases.append(mk_case(rng, pm, "offset", setting, rng.choice(["Wx", "Wz"]), Q.seed_vectors(rng, min(d, 12), 1)[0], setting[2] * mult))
         # integer-valued coefficient vectors (+-T_n, monomials) in every container the entry point accepts
         for n in (range(1, 8) if quick else range(1, 13)):
             tn = [float(x) for x in Q.cheb2mono([Fraction(0)] * n + [Fraction(1)])]
